@@ -23,14 +23,13 @@ fn okv<T>(r: std::io::Result<T>) -> Option<T> {
 }
 
 pub const NDF: usize = SEC * 3; // header + FAT sector + directory sector: small enough for field-sensitive arrays
-type FD = FaultAt<ArrFile<NDF>>;
+type FD = FaultAt<PtrFile<NDF>>; // the array lives on the harness's stack (a large array inside nested structs is slow for CBMC)
 
-fn mk_dir_fault(at: usize) -> (crate::internal::Directory<FD>, [EM; 4]) {
-    let mut data = [0u8; NDF];
+fn mk_dir_fault(at: usize, data: &mut [u8; NDF]) -> (crate::internal::Directory<FD>, [EM; 4]) {
     let ff = [0xffu8; SEC];
     data[soff(0)..soff(0) + SEC].copy_from_slice(&ff);
-    put32(&mut data, soff(0), FATSECT);
-    put32(&mut data, soff(0) + 4, EOC);
+    put32(&mut data[..], soff(0), FATSECT);
+    put32(&mut data[..], soff(0) + 4, EOC);
     let mut root = em_blank();
     root.ty = 5; root.nlen = 10;
     let rn = b"Root Entry";
@@ -50,8 +49,8 @@ fn mk_dir_fault(at: usize) -> (crate::internal::Directory<FD>, [EM; 4]) {
         entries.push(to_dirent(&em[s]));
         s += 1;
     }
-    put32(&mut data, 44, 1); put32(&mut data, 48, 1); put32(&mut data, 60, EOC); put32(&mut data, 76, 0);
-    let file: FD = FaultAt { f: ArrFile::new(data, NDF), armed: true, at, calls: 0, injected: 0,
+    put32(&mut data[..], 44, 1); put32(&mut data[..], 48, 1); put32(&mut data[..], 60, EOC); put32(&mut data[..], 76, 0);
+    let file: FD = FaultAt { f: PtrFile::over(data, NDF), armed: true, at, calls: 0, injected: 0,
                              fail_reads: false, fail_writes: true, fail_seeks: true, fail_flush: false };
     let sectors = crate::internal::Sectors::new(crate::internal::Version::V3, NDF as u64, file);
     let mut fat = Vec::with_capacity(4);
@@ -66,7 +65,8 @@ macro_rules! c13_dirent_fault {
         #[kani::stub(std::fmt::format, stub_format)]
         #[kani::unwind(140)]
         fn $name() {
-            let (mut d, em) = mk_dir_fault($at);
+            let mut backing = [0u8; NDF];
+            let (mut d, em) = mk_dir_fault($at, &mut backing);
             let new_len: u64 = kani::any();
             let new_start: u32 = kani::any();
             let bits: u32 = kani::any();
@@ -82,7 +82,7 @@ macro_rules! c13_dirent_fault {
             let mut want = em[1];
             want.start = new_start; want.len = new_len; want.state = bits;
             let b = enc(&want);
-            let img = &d.inner().f.data;
+            let img = d.inner().f.d();
             let mut ok = true;
             let mut k = 0;
             while k < DIRENT {
@@ -113,15 +113,14 @@ c13_dirent_fault!(c13_dirent_fault_at20, 20);
 // root entry must be in the file.
 use crate::internal::{DirEntry, MiniAllocator, Sectors, Version};
 pub const NBF: usize = SEC * (1 + 4); // header, FAT, directory, + the two sectors the scenario appends
-type FBF = FaultAt<ArrFile<NBF>>;
+type FBF = FaultAt<PtrFile<NBF>>;
 
-fn mk_bare_fault(at: usize) -> MiniAllocator<FBF> {
+fn mk_bare_fault(at: usize, data: &mut [u8; NBF]) -> MiniAllocator<FBF> {
     let fatv = [FATSECT, EOC];
-    let mut data = [0u8; NBF];
     let ff = [0xffu8; SEC];
     data[soff(0)..soff(0) + SEC].copy_from_slice(&ff);
     let mut i = 0;
-    while i < 2 { put32(&mut data, soff(0) + 4 * i, fatv[i]); i += 1; }
+    while i < 2 { put32(&mut data[..], soff(0) + 4 * i, fatv[i]); i += 1; }
     let mut root = em_blank();
     root.ty = 5; root.nlen = 10;
     let rn = b"Root Entry";
@@ -140,9 +139,9 @@ fn mk_bare_fault(at: usize) -> MiniAllocator<FBF> {
         entries.push(to_dirent(&em[s]));
         s += 1;
     }
-    put32(&mut data, 44, 1); put32(&mut data, 48, 1); put32(&mut data, 60, EOC); put32(&mut data, 64, 0); put32(&mut data, 76, 0);
+    put32(&mut data[..], 44, 1); put32(&mut data[..], 48, 1); put32(&mut data[..], 60, EOC); put32(&mut data[..], 64, 0); put32(&mut data[..], 76, 0);
     let len = SEC * 3;
-    let file: FBF = FaultAt { f: ArrFile::new(data, len), armed: true, at, calls: 0, injected: 0,
+    let file: FBF = FaultAt { f: PtrFile::over(data, len), armed: true, at, calls: 0, injected: 0,
                               fail_reads: false, fail_writes: true, fail_seeks: true, fail_flush: false };
     let sectors = Sectors::new(Version::V3, len as u64, file);
     let mut fat = Vec::with_capacity(10);
@@ -161,7 +160,8 @@ macro_rules! c13_mini_first_fault {
         #[kani::stub(std::io::copy, stub_io_copy)]
         #[kani::unwind(140)]
         fn $name() {
-            let mut m = mk_bare_fault($at);
+            let mut backing = [0u8; NBF];
+            let mut m = mk_bare_fault($at, &mut backing);
             let r1 = okv(m.begin_mini_chain());
             let inj = secacc::inner_mut(aacc::sectors_mut(dacc::allocator_mut(macc::directory_mut(&mut m)))).injected;
             if inj == 1 {
@@ -170,7 +170,7 @@ macro_rules! c13_mini_first_fault {
             secacc::inner_mut(aacc::sectors_mut(dacc::allocator_mut(macc::directory_mut(&mut m)))).armed = false;
             let r2 = okv(m.begin_mini_chain()); // the caller's retry (flush after a failed flush)
             if let Some(id) = r2 {
-                let img = &m.inner().f.data;
+                let img = m.inner().f.d();
                 let ms = macc::minifat_start_sector(&m);
                 let mf = macc::minifat(&m);
                 assert!(ms != EOC && get32(&img[..], 60) == ms, "C13/C02: after a failed and successfully retried allocation the header does not name the MiniFAT sector the allocator uses (the reopened file has mini sectors but no MiniFAT)");
